@@ -15,6 +15,7 @@ Line-protocol driver for the C13 models (calendar, interval calculators, query p
   wrange <c> <base> <t>             -> <start> <end> | nomatch          (segment.GetOrCreateDataFamily range)
   brange <c> <t>                    -> <start> <end>                    (timeRangeOfTimestamp)
   fqr <c> <base> <qs> <qe>          -> <start> <end>                    (GetDataFamilies' familyQueryTimeRange)
+  gdf <c> <qs> <qe> | t1 t2 ...     -> sorted family starts | none      (Shard.GetDataFamilies over the families of t1..)
   overlap <s1> <e1> <s2> <e2>       -> true | false
   intersect <s1> <e1> <s2> <e2>     -> <s> <e>
   qi <start> <end> <interval>       -> CalcQueryInterval
@@ -140,6 +141,15 @@ def step (st : Unit) (ws : List String) : Unit × String :=
       match q.toInt?, s.toInt? with
       | some q, some s => toString (calIntervalRatio q s)
       | _, _ => "bad-op"
+    | "gdf" :: rest =>
+      match splitBar rest with
+      | [[c, qs, qe], ts] =>
+        match parseCalc c, qs.toInt?, qe.toInt?, ints ts with
+        | some c, some qs, some qe, some ts =>
+          let r := (getDataFamilies c ⟨qs, qe⟩ ts).toArray.qsort (· < ·) |>.toList.eraseDups
+          if r.isEmpty then "none" else Proto.joinInt r
+        | _, _, _, _ => "bad-op"
+      | _ => "bad-op"
     | "match" :: rest =>
       match splitBar rest with
       | [[q], ivs] =>
